@@ -13,7 +13,7 @@ THEOREMS = [
     "entropy_nonpositive_bar_errors", "entropy_keep_inf_needs_value",
 ]
 RULE = ("seeded generator over classes {single array, list of diagrams, equal lengths, infinite bars "
-        "dropped / substituted, keep_inf without value, non-positive bar, scales 1e-6..1e6} x flag "
+        "dropped / substituted, keep_inf without value, non-positive bar, scales 1e-6..1e6, integer-dtype arrays} x flag "
         "combinations; a case is non-trivial when the call succeeds on a diagram with >= 2 finite bars "
         "of different lengths, or exercises an error / infinite-bar branch; distinct = distinct JSON input")
 TRUSTED_BASE = [
@@ -48,7 +48,7 @@ def generate(rng, tier):
     cases = []
     for i in range(n_cases):
         cls = rng.choice(["single", "single", "list", "equal", "inf_drop", "inf_subst", "inf_noval",
-                          "badbar", "zerobar", "scale"])
+                          "badbar", "zerobar", "scale", "intdtype", "intdtype"])
         scale = 1.0
         if cls == "scale":
             scale = rng.choice([1e-6, 1e-3, 1e3, 1e6, 2.0 ** 20, 2.0 ** -20])
@@ -60,6 +60,13 @@ def generate(rng, tier):
             n = rng.randint(2, 7)
             d = _bars(rng, n, scale, equal=(cls == "equal"))
             dgms.append(d)
+        dtype = "float"
+        if cls == "intdtype":
+            # integer-valued bars handed over as integer-dtype arrays (the result must still be real)
+            dtype = rng.choice(["int64", "int32", "int64"])
+            eq = rng.random() < 0.4
+            dgms = [[[b, b + (2 if eq else rng.randint(1, 9))] for b in (rng.randint(-5, 20) for _ in range(rng.randint(2, 6)))]
+                    for _ in range(nd)]
         if cls in ("inf_drop", "inf_subst", "inf_noval"):
             k = rng.randint(1, 2)
             for _ in range(k):
@@ -79,7 +86,7 @@ def generate(rng, tier):
             d[j] = [d[j][0], d[j][0]]
         single = (nd == 1 and rng.random() < 0.6)
         cases.append({"cls": cls, "dgms": dgms, "single": single, "keep_inf": keep_inf,
-                      "val_inf": val_inf, "normalize": normalize})
+                      "val_inf": val_inf, "normalize": normalize, "dtype": dtype})
     return cases
 
 
@@ -90,6 +97,9 @@ def corpus():
          "keep_inf": True, "val_inf": 10, "normalize": False},
         {"dgms": [[[-1, 2]]], "single": True, "keep_inf": False, "val_inf": None, "normalize": False},
         {"dgms": [[[0, 1], [1, 1]]], "single": True, "keep_inf": False, "val_inf": None, "normalize": False},
+        {"dgms": [[[0, 2], [3, 5]]], "single": True, "keep_inf": False, "val_inf": None, "normalize": False, "dtype": "int64"},
+        {"dgms": [[[0, 2], [3, 5], [1, 3]], [[0, 1], [0, 3]]], "single": False, "keep_inf": False, "val_inf": None, "normalize": True, "dtype": "int64"},
+        {"dgms": [[[1, 2], [1, 2], [1, 2], [1, 2], [3, "inf"]]], "single": True, "keep_inf": False, "val_inf": None, "normalize": True},
     ]
 
 
@@ -102,7 +112,8 @@ def impl_run(cases):
     from persim.persistent_entropy import persistent_entropy
     outs = []
     for c in cases:
-        arrs = [np.array([[_f(b), _f(d)] for b, d in dg], dtype=float).reshape(-1, 2) for dg in c["dgms"]]
+        dt = {"int64": np.int64, "int32": np.int32}.get(c.get("dtype", "float"), float)
+        arrs = [np.array([[_f(b), _f(d)] for b, d in dg], dtype=float).reshape(-1, 2).astype(dt) for dg in c["dgms"]]
         arg = arrs[0] if c["single"] else arrs
 
         def call():
